@@ -282,6 +282,9 @@ def featOp (j : Json) : R Json := do
             ("complete", toJson g.m.complete), ("starter", toJson g.m.starter), ("final", toJson g.m.final), ("iterative", toJson g.m.iterative)]
     return jObj [("bio", eToJson (fun b => biosToJson [b]) b), ("back", eToJson modJson back),
                  ("again", eToJson (fun b => biosToJson [b]) again)]
+  | "extmotif" =>
+    -- ExternalCDSMotif.to_biopython: what the parent classes wrote, and the qualifiers the motif arrived with
+    return jObj [("quals", qualsToJson (extWrite (← qualsOfJson (← fld j "written")) (← qualsOfJson (← fld j "original"))))]
   | k => throw s!"C10: unknown feature kind {k}"
 
 
